@@ -63,7 +63,8 @@ def run(ctx):
         s = pairs(sig) if rows_ok else None
         n = pairs(res.noise) if (res.noise is not None and np.asarray(res.noise).ndim in (1, 2)) else None
         layout_ok = rows_ok and ((sig.ndim == 1 and npol == 1) or (sig.ndim == 2 and npol == 2 and sig.shape[0] == 2)) \
-            and (res.noise is None or np.asarray(res.noise).shape == sig.shape) and len(res) == sig.shape[-1] and res.len() == sig.shape[-1]
+            and (res.noise is None or np.asarray(res.noise).shape == sig.shape) and len(res) == sig.shape[-1] and res.len() == sig.shape[-1] \
+            and sig.shape[-1] >= 1
         return {"cls": cls, "npol": npol if npol in (1, 2) else 0, "sig": s if s is not None else [[]],
                 "noise": n if n is not None else [], "hasnoise": res.noise is not None, "any": False, "layout_ok": bool(layout_ok)}
 
@@ -307,6 +308,9 @@ def run(ctx):
         objs = [rand_obj(cls, npol, n, rnd.random() < 0.5, p + i) for i in range(2)] + [rand_obj(cls, npol, 1, rnd.random() < 0.5, p)]
         for step in range(6):
             a = rnd.choice(objs)
+            if len(a) < 1:
+                ctx.violation("program:empty-container", "an operation returned an empty container", {"object": describe(a)})
+                break
             before = [digest(o) for o in objs]
             k = rnd.randrange(10)
             ev = {"a": describe(a), "b": describe(a), "blit": False, "lit": [[[0, 0]]], "sl": [[], [], []], "k": 0}
@@ -360,7 +364,7 @@ def run(ctx):
                 ev["out"] = d
                 if any(np.shares_memory(x, y) for x in arrays(res) for o in objs for y in arrays(o)):
                     ctx.violation(f"program:{ev['op']}:aliasing", "result shares memory with an operand", {"event": ev})
-                if ev["op"] not in ("mul", "rmul", "transform") and len(res) <= 128 and rnd.random() < 0.7:
+                if ev["op"] not in ("mul", "rmul", "transform") and 1 <= len(res) <= 128 and rnd.random() < 0.7:
                     for x in arrays(res):
                         x.flags.writeable = False
                     objs.append(res)
